@@ -47,6 +47,7 @@ type LoopSpec struct {
 	Decreases     ast.Expr
 	DecreasesText string
 	Modifies      []Clause
+	Keeps         []Clause // regions above the address-space split that the loop does not write (restored after the havoc of fresh memory; writes to them are frame violations)
 }
 
 type ParamDecl struct {
@@ -689,6 +690,14 @@ func parseContractFile(path string, cs *ContractSet) error {
 							}
 							ls.Modifies = append(ls.Modifies, c)
 						}
+					}
+				case "keeps":
+					for _, part := range splitTop(arg, ",") {
+						c, err := mkClause(strings.TrimSpace(part), l.line)
+						if err != nil {
+							return err
+						}
+						ls.Keeps = append(ls.Keeps, c)
 					}
 				default:
 					return fmt.Errorf("%s:%d: unknown loop clause %q", path, l.line, fs[1])
